@@ -1,9 +1,13 @@
 import Driver.Num
+import Driver.Lang
 open Fpy Fpy.Drv
 
 def handlers : List (String → Option (P String)) := [handleNum]
 
 def handleLine (line : String) : String :=
+  match handleLangLine line with
+  | some out => out
+  | none =>
   let toks := (line.splitOn " ").filter (· != "")
   match toks with
   | [] => "bad-op"
